@@ -323,7 +323,7 @@ class C07(Prop):
                     p = lv["p"]
                     tag = f"nest request for prompt {p} (executor={lv['z']}, assessor={lv['y']}): {rep}"
                     f = judge(p, Ob(rep + " ; " + stats), lv["z"], lv["y"], tag, idx, orig.get(p, []) + fresh.get(p, []))
-                    if f is not None:
+                    if f is not None and cache_on:
                         fresh.setdefault(p, []).append(f)
                 orig.update(fresh)
                 continue
@@ -331,8 +331,8 @@ class C07(Prop):
                 continue
             z, y = actual[idx]       # what the agents really answered on this request (None = not consulted)
             f = judge(t[1], Ob(raw), z, y, raw, idx, orig.get(t[1], []))
-            if f is not None:
-                orig[t[1]] = [f]
+            if f is not None and cache_on:       # (a reply obtained while the cache is switched off is nobody's original:
+                orig[t[1]] = [f]                 #  an entry filed earlier stays the original of later cached replies)
         return out
 
     def _oracle_reenter(self, info, idx, out):
